@@ -530,6 +530,6 @@ func TestC07_NearLimit(t *testing.T) {
 	hx.Run(t, hx.Prop[longExprCase]{
 		ID: "C07", Sub: "nearlimit", Checks: hx.Scale(400, 200000),
 		Rule: "long expressions: over the chain a1 = 1, a(k+1) = a(k)+a(k) an expression is built that has exactly T tokens after substitution (T mostly within 10 of 4096, also 2047/2048/8191/8192 and anything up to 9000), optionally followed by +7, -3 or *2, with drawn signs; it stands as an EQU value, directly as an operand, or in an `;assert` whose condition is exactly zero or one. The assembler may refuse it (there is a length limit) or must evaluate it exactly (field = value mod 2^34; the zero assert refused): never a third thing. Non-trivial: T within 4000..4200; distinct by case hash.",
-		Gen: genLongExprCase, Judge: judgeLongExprCase,
+		Gen:  genLongExprCase, Judge: judgeLongExprCase,
 	})
 }
